@@ -127,9 +127,15 @@ def oracle(case, ob):
                 return f"{where}: lock {li}: two waiters woken by one action: {woken}"
             t, seq, fid = woken[0]
 
+            prio_b, waiters_b = c11.graph(before)
+
             def ep(state, task):
+                # recomputed from the observed wait-for graph (own priorities, held locks, queued waiters),
+                # NOT read from the implementation's effective_priority()
                 tk = state[TASKS][task]
-                return Fraction(*tk[6][0]) if tk[6] else Fraction(0)
+                if not tk[5]:
+                    return Fraction(0)
+                return c11.eprio_ref(state, task, prio_b, waiters_b)
             # effective priorities at the moment of the hand-over: the waiters' own priorities do not
             # change by the releasing action itself, so the state before the action is the reference
             mine = (ep(before, t), seq)
